@@ -4,6 +4,8 @@ import TrippyVerif.Model.Checksum
 import TrippyVerif.Model.Ext
 import TrippyVerif.Model.StateAgg
 import TrippyVerif.Model.BuilderIO
+import TrippyVerif.Model.Wire
+import TrippyVerif.Model.TuiIO
 /-
 Line-protocol driver: one request per input line, one answer per output line.
 The Rust harness (`/verif/harness`, binary `tvh`) runs the real trippy code on the same
@@ -14,6 +16,8 @@ requests; `/verif/check` diffs the two answer streams.
   cksum <fn> <hexdata> <hexsrc> <hexdst>   the six checksum entry points (C13)
   agg new|round|dump|get …                  the state aggregator (stateful; C05 C10 C15 C19)
   cfgb build|cli …                          Builder::build / CLI validation model (C16)
+  wire send|recv|tcp|cksum|slice|errmap …   the channel: probe encoding, response decoding (C02 C04 C11)
+  tui new|data|key|frame …                  the TUI selection state machine (stateful; C17 C18)
   st cfg … / st it …                  the tracing state machine (stateful; C03 C06 C07 C08 C09)
 -/
 open TV
@@ -21,6 +25,7 @@ open TV
 structure DState where
   st : Strat.DSt := {}
   agg : Agg.DSt := {}
+  tui : Tui.DSt := {}
 
 def step (d : DState) (line : String) : DState × String :=
   match line.trimAscii.toString.splitOn " " with
@@ -38,6 +43,10 @@ def step (d : DState) (line : String) : DState × String :=
   | "cfgb" :: rest => (d, (Builder.handle rest).getD "bad-op")
   | "ext" :: rest => (d, (Ext.handle rest).getD "bad-op")
   | "cksum" :: rest => (d, (Cksum.handle rest).getD "bad-op")
+  | "wire" :: rest => (d, (Wire.handle rest).getD "bad-op")
+  | "tui" :: args =>
+    let (t', out) := Tui.handle d.tui args
+    ({ d with tui := t' }, out)
   | "st" :: args =>
     let (s', out) := Strat.stepLine d.st args
     ({ d with st := s' }, out)
